@@ -146,11 +146,84 @@ fn group_oracles(evals: &[Eval], r: &Reps, set: &str) {
     }
 }
 
+fn slots_from_json(v: &serde_json::Value) -> Option<Vec<Slot>> {
+    let d4 = |x: &serde_json::Value| -> Option<D4> {
+        let a = x.as_array()?;
+        Some([a.first()?.as_u64()?, a.get(1)?.as_u64()?, a.get(2)?.as_u64()?, a.get(3)?.as_u64()?])
+    };
+    v.as_array()?
+        .iter()
+        .map(|s| {
+            Some(Slot {
+                asset: s["asset"].as_u64()?,
+                fee: s["fee"].as_u64()?,
+                bh: d4(&s["bh"])?,
+                number: s["number"].as_u64()?,
+                nullifier: d4(&s["nullifier"])?,
+                e1: d4(&s["e1"])?,
+                a1: s["a1"].as_u64()?,
+                e2: d4(&s["e2"])?,
+                a2: s["a2"].as_u64()?,
+                pre: d4(&s["pre"])?,
+            })
+        })
+        .collect()
+}
+
+/// --replay <file>: re-run the recorded slot vector(s) through CX on a freshly built wrapper
+/// and apply the per-run and differential oracles to just these vectors. No evidence is written.
+fn replay(path: &str) -> i32 {
+    let v: serde_json::Value = serde_json::from_str(&std::fs::read_to_string(path).unwrap_or_else(|e| machinery_error(&format!("replay file {path}: {e}")))).unwrap_or_else(|e| machinery_error(&format!("replay file {path}: {e}")));
+    let case = &v["case"];
+    let mut vectors: Vec<Vec<Slot>> = Vec::new();
+    for k in ["slots", "a", "b"] {
+        if !case[k].is_null() {
+            vectors.push(slots_from_json(&case[k]).unwrap_or_else(|| machinery_error(&format!("replay file {path}: field {k} is not a slot vector"))));
+        }
+    }
+    if vectors.is_empty() {
+        machinery_error("replay file holds no slot vector (C36 placements are replayed by re-running ./check C36 quick)");
+    }
+    let n = vectors[0].len();
+    let leaf = LeafCtx::new();
+    let w = build_priv_wrapper(n, &leaf.data.common);
+    let cx = Cx::new(&w.data);
+    let reports: Vec<Report> = ["C06", "C07", "C08", "C09"].iter().map(|p| Report::new(p, "exploration", "replay")).collect();
+    let r = Reps { c06: &reports[0], c07: &reports[1], c08: &reports[2], c09: &reports[3] };
+    let evals = eval_vectors(&w, &cx, &vectors);
+    for e in &evals {
+        println!("N={n} circuit {} / spec {}", if e.accept { "ACCEPTS".to_string() } else { format!("REJECTS ({})", e.reject) }, match private_accepts(&e.slots) { Ok(_) => "accepts".to_string(), Err(x) => format!("rejects ({x})") });
+        if e.accept {
+            println!("  output  {:?}", e.pis);
+            println!("  expected {:?}", private_agg(&e.slots));
+        }
+        per_run_oracles(e, &r, "replay");
+    }
+    group_oracles(&evals, &r, "replay");
+    let mut bad = 0;
+    for rep in &reports {
+        for (p, _k, what) in rep.violation_texts() {
+            println!("  {p}: {what}");
+            bad += 1;
+        }
+    }
+    if bad > 0 {
+        println!("VIOLATION property={} replay={path}", v["property"].as_str().unwrap_or("?"));
+        1
+    } else {
+        println!("no oracle is violated by the recorded vector(s)");
+        0
+    }
+}
+
 fn main() {
     quiet_panics();
     let tier = tier_from_args();
     let thorough = tier == "thorough";
     let prop = arg_value("--property").unwrap_or_else(|| "C06".into());
+    if let Some(path) = arg_value("--replay") {
+        std::process::exit(replay(&path));
+    }
     if prop == "C36" {
         std::process::exit(c36(&tier, thorough));
     }
